@@ -89,6 +89,9 @@ type Case struct {
 	// Mods (2 or 3): the host functions are spread over that many host modules: function #j
 	// lives in host module j%Mods at index j/Mods, so equal indices occur in different modules.
 	Mods int `json:"host_modules,omitempty"`
+	// Overflow adds the sequence "a call that ends in stack overflow, then a small call that never
+	// reaches a host function" on ONE api.Function (deepid), through Call and CallWithStack.
+	Overflow bool `json:"overflow,omitempty"`
 }
 
 var styles = []string{"reflect", "reflect-ctx", "reflect-mod", "gofunc", "gomodfunc"}
@@ -211,6 +214,8 @@ func pushConst(b *wasmenc.B, t byte, c uint64) {
 	}
 }
 
+const holdMark = 0x5eed0000aaaa5555
+
 var auxKinds = []string{"gi", "gI", "gF", "m", "t"}
 
 func nMods(c Case) int {
@@ -329,6 +334,31 @@ func buildGuest(c Case) []byte {
 	}
 	m.ExportFunc("echo_ind", m.AddFunc(P, R, nil, params(wasmenc.NewB()).I32Const(0).CallIndirect(m.AddType(P, R), ownTable).Bytes()))
 	m.ExportFunc("echo_tail", m.AddFunc(P, R, nil, params(wasmenc.NewB()).ReturnCall(host).Bytes()))
+	// echo_tci: the tail call through the table (return_call_indirect to the host function)
+	tIdx := m.AddType(P, R)
+	echoTail := m.NumImportedFuncs() + uint32(len(m.Funcs)) - 1
+	echoTci := m.AddFunc(P, R, nil, params(wasmenc.NewB()).I32Const(0).ReturnCallIndirect(tIdx, ownTable).Bytes())
+	m.ExportFunc("echo_tci", echoTci)
+	// hold_tail / hold_tci: a caller that keeps an operand on its stack across the call of the
+	// tail-calling function: returns (0x5eed0000aaaa5555, results...)
+	holdR := append([]byte{wasmenc.I64}, R...)
+	m.ExportFunc("hold_tail", m.AddFunc(P, holdR, nil, params(wasmenc.NewB().I64Const(holdMark)).Call(echoTail).Bytes()))
+	m.ExportFunc("hold_tci", m.AddFunc(P, holdR, nil, params(wasmenc.NewB().I64Const(holdMark)).Call(echoTci).Bytes()))
+	if c.Overflow {
+		// deepid(d, params...) -> params: non-tail recursion d levels deep, then returns its params
+		dp := append([]byte{wasmenc.I32}, P...)
+		self := m.NumImportedFuncs() + uint32(len(m.Funcs))
+		b := wasmenc.NewB().LocalGet(0).Raw(wasmenc.OpI32Eqz).IfT(m.AddType(nil, P))
+		for i := uint32(0); i < np; i++ {
+			b.LocalGet(1 + i)
+		}
+		b.Else().LocalGet(0).I32Const(1).Raw(wasmenc.OpI32Sub)
+		for i := uint32(0); i < np; i++ {
+			b.LocalGet(1 + i)
+		}
+		b.Call(self).End()
+		m.ExportFunc("deepid", m.AddFunc(dp, P, nil, b.Bytes()))
+	}
 	// multi_v: () -> i64: one guest call that calls every probed pad function, then the function
 	// under test with the v-th vector as constants, then every pad function again, comparing all
 	// results with constants inside the guest (bit k / 16+k: pad k in round 1 / 2, bit 40: function under test)
@@ -1035,9 +1065,9 @@ func runCase(c Case) (f *failure, st runStats) {
 			for _, variant := range []struct {
 				fn string
 				cb int
-			}{{"echo", 0}, {"echo", 1}, {"echo", 2}, {"echo_ind", 0}, {"echo_tail", 0}, {"echo_ind", 3}, {"echo_tail", 3}} {
+			}{{"echo", 0}, {"echo", 1}, {"echo", 2}, {"echo_ind", 0}, {"echo_tail", 0}, {"echo_tci", 0}, {"hold_tail", 0}, {"hold_tci", 0}, {"echo_ind", 3}, {"echo_tail", 3}, {"hold_tci", 3}} {
 				cb := variant.cb
-				if variant.fn == "echo_tail" && c.NoTail {
+				if (variant.fn == "echo_tail" || variant.fn == "echo_tci" || strings.HasPrefix(variant.fn, "hold_")) && c.NoTail {
 					continue
 				}
 				if cb == 1 && ws || cb == 2 && !ws {
@@ -1057,7 +1087,13 @@ func runCase(c Case) (f *failure, st runStats) {
 				if cb != 0 {
 					what += " with the host function calling id back"
 				}
-				res, err := call(variant.fn, ws, v.Args, nr)
+				wantRes, resTypes := v.Res, c.R
+				if strings.HasPrefix(variant.fn, "hold_") {
+					// the caller's own operand comes back first, then the host function's results
+					wantRes, resTypes = append([]uint64{holdMark}, v.Res...), "I"+c.R
+					what += " (caller keeps an i64 operand on its stack across the call of the tail-calling function)"
+				}
+				res, err := call(variant.fn, ws, v.Args, len(wantRes))
 				h.cb = 0
 				if err != nil {
 					return failf("%s: %s failed: %v", describe(c), what, firstLine(err)), st
@@ -1065,9 +1101,35 @@ func runCase(c Case) (f *failure, st runStats) {
 				if f := hostSaw(what, v.Args); f != nil {
 					return f, st
 				}
-				if f := sameRes(what+": results returned by the host function", c.R, res, v.Res); f != nil {
+				if f := sameRes(what+": results returned by the host function", resTypes, res, wantRes); f != nil {
 					return f, st
 				}
+			}
+		}
+		if c.Overflow && vi == 0 {
+			// one api.Function: small call, call that overflows the stack, small call again (never reaches a host function)
+			small := append([]uint64{3}, v.Args...)
+			huge := append([]uint64{1 << 30}, v.Args...)
+			for _, ws := range []bool{false, true} {
+				for step, a := range [][]uint64{small, huge, small, small} {
+					res, err := call("deepid", ws, a, np)
+					what := fmt.Sprintf("deepid(depth=%d, params) via %s, call %d on the same api.Function (sequence: small, overflowing, small, small)", a[0], form(ws), step+1)
+					if step == 1 {
+						if o := wz.Classify(err); o.Kind != wz.KStack {
+							return failf("%s: %s: expected a stack overflow error, got %v %v", describe(c), what, o, res), st
+						}
+						continue
+					}
+					if err != nil {
+						return failf("%s: %s failed: %v", describe(c), what, firstLine(err)), st
+					}
+					if f := sameRes(what, c.P, res, v.Args); f != nil {
+						return f, st
+					}
+				}
+			}
+			if len(h.calls)+len(h.padCalls) > 0 {
+				return failf("%s: deepid reached a host function", describe(c)), st
 			}
 		}
 		// pad functions at other positions of the same host module
@@ -1231,6 +1293,9 @@ func describe(c Case) string {
 	}
 	if nMods(c) > 1 {
 		g += fmt.Sprintf(" host-modules=%d", nMods(c))
+	}
+	if c.Overflow {
+		g += " with-overflow-sequence"
 	}
 	if len(c.Imports) > 0 {
 		g += fmt.Sprintf(" guest-imports=%v", c.Imports)
@@ -1789,6 +1854,7 @@ func genCase(t *rapid.T) Case {
 			}
 		}
 	}
+	c.Overflow = rapid.IntRange(0, 79).Draw(t, "overflow-sequence") == 17
 	if c.Fleet > 1 && rapid.IntRange(0, 2).Draw(t, "one-host-module") != 0 {
 		c.Mods = rapid.IntRange(2, 3).Draw(t, "host-modules")
 	}
@@ -1890,6 +1956,9 @@ func labelsOf(c Case, st runStats) (bool, []string) {
 			}
 			idx[j/nMods(c)] = true
 		}
+	}
+	if c.Overflow {
+		l = append(l, "overflow-then-plain-call-on-one-handle")
 	}
 	if strings.ContainsAny(c.PGo+c.RGo, "SU") && isReflect(c.Style) {
 		l = append(l, "reflect-named-go-types")
